@@ -11,7 +11,11 @@
    in range, enum values are members, strings valid UTF-8, and every SET string,
    bytes, list, nested struct and list element serialises to at least one byte
    (a set-but-empty field is not transmitted at all, so it cannot be distinguished
-   from an unset one: excluded explicitly, reported by the harness).  The fuel
+   from an unset one: excluded explicitly, reported by the harness).  A field of
+   type Sequence[<fixed-width int>] (TSeqInt: the "linked services" of BLE/CoAP
+   service signatures) must be UNSET in [fits_msg]: the model follows the current
+   code, which cannot encode a non-empty list (AttributeError) and decodes the
+   packed array wrongly - see tlv8_sequ16_refuted below (known finding).  The fuel
    [n] of [enc]/[dec]/[wf]/[fits] is the nesting depth; theorems hold for every n. *)
 From Coq Require Import List NArith Arith Bool Lia Permutation.
 From AHK Require Import Lib.Res Lib.ByteStr Model.Tlv8 Proofs.Tlv8Iter Proofs.Tlv8 Proofs.Tlv8Order.
@@ -76,17 +80,45 @@ Theorem tlv8_own_encoding_acceptable : forall n t v e,
 Proof. exact (enc_acc 255). Qed.
 
 (* ---- packed id lists (linked services) --------------------------------------- *)
-(* n ids of any fixed-width kind, packed, decode to exactly those ids *)
+(* SPECIFICATION side only: [spec_unpack]/[ienc] are the packed-array codec the HAP
+   specification describes and the harness's reference oracle implements; they are
+   NOT what aiohomekit/tlv8.py does today (next theorems).  n ids of any fixed-width
+   kind, packed, unpack to exactly those ids *)
 Theorem tlv8_sequ16 : forall k l,
-    forallb (irange k) l = true -> unpack k (concat (map (ienc k) l)) = l.
-Proof. exact unpack_pack. Qed.
+    forallb (irange k) l = true -> spec_unpack k (concat (map (ienc k) l)) = l.
+Proof. exact spec_unpack_pack. Qed.
 
-(* and every even-length byte string is the packing of the u16 ids it decodes to:
-   no byte value (0x00 in particular) is treated specially *)
+(* and every even-length byte string is the packing of the u16 ids it unpacks to:
+   no byte value (0x00 in particular) is special in the specification's format *)
 Theorem tlv8_sequ16_every_byte : forall b,
     all_bytes b = true -> Nat.even (length b) = true ->
-    concat (map (ienc U16) (unpack U16 b)) = b.
+    concat (map (ienc U16) (spec_unpack U16 b)) = b.
 Proof. intros b Hb He. exact (pack_unpack_u16 b (length b) Hb He (le_n _)). Qed.
+
+(* the CURRENT code (faithful model) does not implement that format: the packed
+   array is run through tlv_array, which splits at every 0x00 *type* byte.
+   Known finding, witnesses replayed on the implementation by harness/c16.py *)
+Theorem tlv8_sequ16_refuted :
+  exists l, forallb (irange U16) l = true /\
+            tlv8_decode (TSeqInt U16) (concat (map (ienc U16) l)) <> Ok (VIds l).
+Proof. exact sequ16_refuted. Qed.
+
+(* [256] -> [0];  [16;32] -> [2097168];  [256;16] -> IndexError;  encoding [1] ->
+   AttributeError;  BLE service signature 0f 02 07 00 10 02 00 01 -> linked [0] *)
+Theorem tlv8_sequ16_refuted_cases :
+  tlv8_decode (TSeqInt U16) (concat (map (ienc U16) [256%N])) = Ok (VIds [0%N]) /\
+  tlv8_decode (TSeqInt U16) (concat (map (ienc U16) [16%N; 32%N])) = Ok (VIds [2097168%N]) /\
+  tlv8_decode (TSeqInt U16) (concat (map (ienc U16) [256%N; 16%N])) = Crash /\
+  tlv8_encode (TSeqInt U16) (VIds [1%N]) = Err EAttr /\
+  tlv8_decode (TStruct [(15%N, TInt U16); (16%N, TSeqInt U16)]) [15%N; 2%N; 7%N; 0%N; 16%N; 2%N; 0%N; 1%N]
+    = Ok (VStruct [Some (VInt 7); Some (VIds [0%N])]).
+Proof. exact sequ16_refuted_cases. Qed.
+
+(* the sub-domain on which the current decoder is right: exactly one id whose low
+   byte is not zero (wire bytes lo hi) *)
+Theorem tlv8_sequ16_single_id : forall lo hi,
+    lo <> 0%N -> tlv8_decode (TSeqInt U16) [lo; hi] = Ok (VIds [(lo + 256 * (hi + 256 * 0))%N]).
+Proof. exact sequ16_single_id_ok. Qed.
 
 (* ---- fragment boundaries ------------------------------------------------------- *)
 (* one iterator step over the fragments of a value of ANY length (in particular
@@ -114,7 +146,7 @@ Proof. exact (tlv_array_join 255 F255). Qed.
 
 (* ---- non-vacuity ------------------------------------------------------------------ *)
 (* a list of structs with 510-byte values (two full fragments: 255*2) next to other
-   fields, nested two levels deep, plus a packed id list with a zero low byte *)
+   fields, nested two levels deep (the Sequence[u16] field is unset: outside fits_msg) *)
 Definition ex_schema : ty :=
   TStruct [(1%N, TSeq [(1%N, TBytes); (2%N, TInt U16); (3%N, TStruct [(1%N, TStr); (2%N, TEnum [0%N; 1%N; 2%N])])]);
            (15%N, TInt U16);
@@ -122,12 +154,12 @@ Definition ex_schema : ty :=
 Definition ex_value : val :=
   VStruct [Some (VSeq [[Some (VB (repeat 1%N 510)); Some (VInt 300); None];
                        [Some (VB (repeat 0%N 255)); None; Some (VStruct [Some (VB [104%N; 105%N]); Some (VInt 2)])]]);
-           None;
-           Some (VIds [16%N; 32%N; 8192%N])].
+           Some (VInt 1);
+           None].
 
 Example c16_nonvacuous :
   wf_schema ex_schema = true /\ fits_msg ex_schema ex_value = true /\
-  (exists e, tlv8_encode ex_schema ex_value = Ok e /\ length e = 802 /\ tlv8_decode ex_schema e = Ok ex_value).
+  (exists e, tlv8_encode ex_schema ex_value = Ok e /\ length e = 798 /\ tlv8_decode ex_schema e = Ok ex_value).
 Proof.
   split; [vm_compute; reflexivity|]. split; [vm_compute; reflexivity|].
   eexists. split; [vm_compute; reflexivity|]. split; vm_compute; reflexivity.
@@ -156,6 +188,9 @@ Print Assumptions tlv8_accessory_order_depth.
 Print Assumptions tlv8_own_encoding_acceptable.
 Print Assumptions tlv8_sequ16.
 Print Assumptions tlv8_sequ16_every_byte.
+Print Assumptions tlv8_sequ16_refuted.
+Print Assumptions tlv8_sequ16_refuted_cases.
+Print Assumptions tlv8_sequ16_single_id.
 Print Assumptions tlv8_frag_boundary.
 Print Assumptions tlv8_iterator_items.
 Print Assumptions tlv8_array_split.
